@@ -429,14 +429,12 @@ class DiskWorld:
             self.stats[f"fault_not_fired/write_{plan['kind']}"] += 1
         if exc is not None:
             if not hard:
-                if isinstance(exc, OSError):
-                    v = Violation("SPURIOUS-FAILURE", f"save raised {type(exc).__name__}: {exc} although no non-maskable fault "
-                                  f"fired (fired: {sorted(fired)})", {"op": "save", "kind": "raised-without-fault"}, idx)
-                    self.log.add("save", name, "viol", v.cls)
-                    return v
-                self.foreign = f"save:{type(exc).__name__}"
-                self.log.add("save", name, "foreign", self.foreign)
-                return None
+                # legal input, no non-maskable fault: the pinned tree never refuses such a save, so a raise is a violation
+                cls = "SPURIOUS-FAILURE" if fired else "SAVE-RAISED"
+                v = Violation(cls, f"save of legal sequences raised {type(exc).__name__}: {exc} although no non-maskable fault "
+                              f"fired (fired: {sorted(fired)})", {"op": "save", "kind": "raised-without-fault"}, idx)
+                self.log.add("save", name, "viol", v.cls)
+                return v
             self.acked[name] = None
             self.stats["reach_save/raised_under_fault"] += 1
             self.log.add("save", name, "raised", type(exc).__name__, sorted(fired), len(self.disk.read_bytes(name)))
@@ -453,6 +451,11 @@ class DiskWorld:
 
     def _load(self, ev, name, idx):
         if not self.disk.exists(name):
+            if self.acked.get(name) is not None:
+                v = Violation("ACK-NOT-DURABLE", f"save of {name}.mid returned normally but there is no such file afterwards",
+                              {"op": "load", "kind": "missing-file"}, idx)
+                self.log.add("load", name, "viol", v.cls)
+                return v
             self.log.add("load", name, "skip:nofile")
             return None
         plan = ev.get("plan") or {}
@@ -623,7 +626,7 @@ def c12_run_one(seed, tier, index):
     n_ops = rng.randrange(2, 7)
     size_hint = 60
     for k in range(n_ops):
-        have = world.disk.names()
+        have = sorted(set(world.disk.names()) | {n for n, a in world.acked.items() if a is not None})
         if k == 0 or (rng.random() < 0.4) or not have:
             ev = {"op": "save", "name": rng.choice(names), "which": rng.randrange(len(pool)),
                   "plan": {"kind": "none", "buf": 8192} if lane == "baseline" else gen_plan(rng, "w", size_hint),
@@ -1168,9 +1171,8 @@ def c13_compare(f, seqs):
             if not nearest_ok(g[3], w[3]) or not nearest_ok(g[4], w[4]):
                 return "RESCALE", (f"group {gi}: note {g[:3]} loaded at [{g[3]}, {g[4]}], exact position "
                                    f"[{float(w[3]):.3f}, {float(w[4]):.3f}] (tpb {f['tpb']}): more than half a tick off")
-        has_sig = any(m.message_type in (observe._TS, observe._KS) for m in msgs)
-        if gi != target and has_sig:
-            return "ROUTING", f"sequence {gi} carries signature events although the designated meta sequence is {target}"
+        # the statement wants every signature ON the designated meta sequence; it does not forbid a loader that also leaves
+        # a track's own signatures on its sequence, so their presence elsewhere is not judged
     meta_msgs = seqs[target].abs._messages
     ts = timesig_in_force(meta_msgs, (4, 4))
     ks = key_in_force(meta_msgs, None)
@@ -1227,14 +1229,13 @@ class LoadWorld:
                 self.stats["reach_load/raised_under_fault"] += 1
                 self.log.add("load", "raised", type(exc).__name__)
                 return None
-            if isinstance(exc, OSError) or fired:
-                v = Violation("SPURIOUS-FAILURE", f"load raised {type(exc).__name__}: {exc} with only maskable faults fired "
-                              f"({sorted(fired)})", {"kind": "raised"}, idx)
-                self.log.add("load", "viol", v.cls)
-                return v
-            self.foreign = f"load:{type(exc).__name__}"
-            self.log.add("load", "foreign", self.foreign)
-            return None
+            # the generator only writes legal files and the pinned tree never refuses one: any raise that no non-maskable
+            # fault explains is a violation, whatever its type and whichever lane the run is in
+            cls = "SPURIOUS-FAILURE" if fired else "LOAD-RAISED"
+            v = Violation(cls, f"load of a legal file raised {type(exc).__name__}: {exc} (faults fired: {sorted(fired)}; none of "
+                          f"them non-maskable)", {"kind": "raised"}, idx)
+            self.log.add("load", "viol", v.cls)
+            return v
         try:
             res = c13_compare(f, seqs)
         except Exception as e:
